@@ -490,11 +490,36 @@ func lemmaCollectKeepsLookups(f *file, horizon, p sequence.Seq) (before, after m
 	return before, after
 }
 
-// Lock wrappers (nil-tolerant): no effect on anything under contract here.
+// Lock wrappers (nil-tolerant).  wl / rl: the calling operation holds the transaction's mutex for writing /
+// for reading.  This is the sequential shadow of the lock discipline: contracts can say that a version list
+// is touched only while the lock that guards it is held by the operation touching it (a sufficient
+// condition for the absence of races on those structures); what other goroutines do meanwhile is not modelled.
+//@ ghost field (Transaction).wl bool
+//@ ghost field (Transaction).rl bool
 //@ func (*Transaction).Lock
+//@   requires free:   tx != nil ==> !tx.wl && !tx.rl
+//@   modifies Transaction.wl
+//@   ghost tx.wl := ite(tx != nil, true, tx.wl)
+//@   ensures  held:   tx != nil ==> tx.wl
+//@   ensures  others: forall t *Transaction :: t != tx ==> t.wl == old(t.wl)
 //@ func (*Transaction).Unlock
+//@   requires held:   tx != nil ==> tx.wl
+//@   modifies Transaction.wl
+//@   ghost tx.wl := ite(tx != nil, false, tx.wl)
+//@   ensures  free:   tx != nil ==> !tx.wl
+//@   ensures  others: forall t *Transaction :: t != tx ==> t.wl == old(t.wl)
 //@ func (*Transaction).RLock
+//@   requires free:   tx != nil ==> !tx.wl && !tx.rl
+//@   modifies Transaction.rl
+//@   ghost tx.rl := ite(tx != nil, true, tx.rl)
+//@   ensures  held:   tx != nil ==> tx.rl
+//@   ensures  others: forall t *Transaction :: t != tx ==> t.rl == old(t.rl)
 //@ func (*Transaction).RUnlock
+//@   requires held:   tx != nil ==> tx.rl
+//@   modifies Transaction.rl
+//@   ghost tx.rl := ite(tx != nil, false, tx.rl)
+//@   ensures  free:   tx != nil ==> !tx.rl
+//@   ensures  others: forall t *Transaction :: t != tx ==> t.rl == old(t.rl)
 //@ func (*file).Lock
 //@ func (*file).Unlock
 //@ func (*file).RLock
